@@ -115,12 +115,12 @@ func specT1Int(b []byte, i int) int32 {
 //@ ensures [C20.int.form1] (-107 <= x && x <= 107) == (specT1Len(result, len(buf)) == 1)
 //@ ensures [C20.int.form2] ((108 <= x && x <= 1131) || (-1131 <= x && x <= -108)) == (specT1Len(result, len(buf)) == 2)
 //@ ensures [C20.int.form5] (x < -1131 || x > 1131) == (specT1Len(result, len(buf)) == 5)
-//@ ensures [C20.int.prefix] forall k :: 0 <= k && k < len(buf) ==> result[k] == buf[k]
+//@ ensures [C20.int.prefix] forall k :: 0 <= k && k < len(buf) ==> result[k] == old(buf[k])
 
 //@ func appendOp
 //@ safety C10
 //@ ensures [C20.op] (op < 256 ==> len(result) == len(buf) + 1 && result[len(buf)] == byte(op)) && (op >= 256 ==> len(result) == len(buf) + 2 && result[len(buf)] == byte(op >> 8) && result[len(buf)+1] == byte(op))
-//@ ensures [C20.op.prefix] forall k :: 0 <= k && k < len(buf) ==> result[k] == buf[k]
+//@ ensures [C20.op.prefix] forall k :: 0 <= k && k < len(buf) ==> result[k] == old(buf[k])
 
 // ---------------------------------------------------------------------
 // C06 / C08: charstring cipher (Adobe Type 1 Font Format, section 7.2)
@@ -277,10 +277,18 @@ func fontWF(f *Font) bool {
 
 //@ typeinv Font fontWF
 
+// stemEnc: b[from:to] is "pos width op" in Type 1 number format (hstem = 1,
+// vstem = 3; Type 1 book section 6.4: the second operand is the width).
+//@ define stemEnc(b, from, to, pos, width, op) = specT1Int(b, from) == pos && specT1Int(b, from + specT1Len(b, from)) == width && to == from + specT1Len(b, from) + specT1Len(b, from + specT1Len(b, from)) + 1 && b[to-1] == op
+
 //@ func (*Glyph).encodeCharString
 //@ requires g != nil
 //@ loop 1 invariant g != nil && 0 <= i && i <= len(g.HStem) + 1
 //@ loop 2 invariant g != nil && 0 <= i && i <= len(g.VStem) + 1
+//@ loop 1 back-when [C08.stem.h] stemEnc(buf, prev(len(buf)), len(buf), int32(g.HStem[prev(i)]), int32(g.HStem[prev(i)+1]) - int32(g.HStem[prev(i)]), 1) && i == prev(i) + 2
+//@ loop 1 back-when [C08.stem.h.prefix] forall k :: 0 <= k && k < prev(len(buf)) ==> buf[k] == prev(buf[k])
+//@ loop 2 back-when [C08.stem.v] stemEnc(buf, prev(len(buf)), len(buf), int32(g.VStem[prev(i)]), int32(g.VStem[prev(i)+1]) - int32(g.VStem[prev(i)]), 3) && i == prev(i) + 2
+//@ loop 2 back-when [C08.stem.v.prefix] forall k :: 0 <= k && k < prev(len(buf)) ==> buf[k] == prev(buf[k])
 //@ loop 3 invariant g != nil
 
 //@ func (*Font).encodeCharstrings
